@@ -20,6 +20,8 @@ func toTerm(v Value, w int) *Term {
 		return mkConst(x.v, w)
 	case bool:
 		return mkBool(x)
+	case *Atom:
+		panic(unsupported{"byte-level inspection of an integer/opaque text atom"})
 	}
 	panic(fmt.Sprintf("toTerm %T", v))
 }
@@ -460,6 +462,7 @@ func (in *Interp) convert(from, to types.Type, v Value, site ssa.Instruction) Va
 					allConc = false
 				}
 			}
+			_ = allConc
 			if bits == 8 {
 				if allConc {
 					b := make([]byte, len(vals))
@@ -468,11 +471,15 @@ func (in *Interp) convert(from, to types.Type, v Value, site ssa.Instruction) Va
 					}
 					return string(b)
 				}
-				bs := make([]*Term, len(vals))
-				for i, e := range vals {
-					bs[i] = toTerm(e, 8)
+				parts := make([]SPart, 0, len(vals))
+				for _, e := range vals {
+					if at, ok := e.(*Atom); ok {
+						parts = append(parts, SPart{atom: at})
+					} else {
+						parts = append(parts, SPart{b: toTerm(e, 8)})
+					}
 				}
-				return strFromBytes(bs)
+				return normParts(parts)
 			}
 			if allConc {
 				r := make([]rune, len(vals))
@@ -501,8 +508,26 @@ func (in *Interp) convert(from, to types.Type, v Value, site ssa.Instruction) Va
 		if isStrVal(v) {
 			bits, _ := width(st.Elem())
 			bs, ok := strBytes(v)
+			if !ok && bits == 8 {
+				// an integer/opaque atom occupies one opaque slot of the byte slice: it can be moved and
+				// turned back into a string, but any inspection of it is reported (toTerm fails)
+				var vals []Value
+				for _, p := range partsOf(v) {
+					switch {
+					case p.atom != nil:
+						vals = append(vals, p.atom)
+					case p.b != nil:
+						vals = append(vals, symInt(p.b, false))
+					default:
+						for i := 0; i < len(p.lit); i++ {
+							vals = append(vals, Int{uint64(p.lit[i])})
+						}
+					}
+				}
+				return in.sliceOf(st.Elem(), vals)
+			}
 			if !ok {
-				unsup("[]byte/[]rune of string with atoms: %s", show(v))
+				unsup("[]rune of string with atoms: %s", show(v))
 			}
 			if bits == 8 {
 				vals := make([]Value, len(bs))
